@@ -26,6 +26,7 @@ from fibertree import Metrics, Tensor
 from fibertree.model import Format, Traffic
 
 SPEC = {
+    "anchors": ["fibertree.model.traffic:Traffic._combineTraces", "fibertree.model.traffic:Traffic._buildNextUseTrace", "fibertree.model.traffic:Traffic._bufferTraffic", "fibertree.model.traffic:Traffic.buffetTraffic", "fibertree.model.traffic:Traffic.cacheTraffic", "fibertree.model.traffic:Traffic.filterTrace"],
     "rule": ("cases = (i) every read-only access sequence (up to renaming of lines) of length <= 8 over <= 3 lines and "
              "<= 7 over 4 lines (thorough: 10 / 9) under the cache at capacities 0..3 lines and unbounded (simulator + "
              "exhaustive optimum), every read / write / read-modify-write sequence of length <= 5 (6) over 2 lines "
